@@ -312,6 +312,14 @@ OpCMMigrate(U, m, n, unify) == LET r == CMReconM(U, m, n, unify, <<>>) IN [u |->
 OpCMMigrateMemo(U, m, n, k) == LET r == CMReconM(U, m, n, TRUE, U.memos[k])
                                IN [u |-> [r.u EXCEPT !.memos[k] = r.memo], raised |-> r.raised]
 OpCMReconstruct(U, m, unify) == OpCMMigrate(U, m, U.mats[m].ns, unify)
+\* the matrix analogue of TLClearReconstruct: cm.taxon_namespace.clear() ; cm.reconstruct_taxon_namespace()
+SoleUserM(U, m) == LET n == U.mats[m].ns IN
+    /\ \A k \in 1..Len(U.mats) : k # m => U.mats[k].ns # n
+    /\ \A l \in 1..Len(U.lists) : U.lists[l].ns # n
+    /\ \A b \in 1..Len(U.arrs) : U.arrs[b].ns # n /\ U.arrs[b].sd # n
+    /\ \A t \in 1..Len(U.trees) : U.trees[t].ns # n
+    /\ U.ds.att # n
+OpCMClearReconstruct(U, m, unify) == OpCMMigrate(ClearNs(U, U.mats[m].ns), m, U.mats[m].ns, unify)
 OpCMUpdate(U, m) == COk(AddAll(U, U.mats[m].ns, U.mats[m].rows))
 \* X.from_dict({label: seq, ...}, taxon_namespace=n, case_sensitive_taxon_labels=n.is_case_sensitive)
 OpCMFromDict(U, keys, nsarg) == LET U0 == IF nsarg = 0 THEN NewNs(U) ELSE U
@@ -444,6 +452,7 @@ Guard(U, a, x) ==     \* on a sane universe (Sane is checked separately: invaria
       [] a = "CMGetIndex"      -> HasMat(U, x.m) /\ x.i >= 0
       [] a = "CMMigrate"       -> HasMat(U, x.m) /\ HasNs(U, x.n) /\ (MatInDs(U, x.m) /\ U.ds.att # 0 => x.n = U.ds.att)
       [] a = "CMReconstruct"   -> HasMat(U, x.m)
+      [] a = "CMClearReconstruct" -> HasMat(U, x.m) /\ SoleUserM(U, x.m)
       [] a = "CMUpdate"        -> HasMat(U, x.m)
       [] a = "CMFromDict"      -> NsArgOk(U, x.nsarg) /\ ~KeysCollide(x.keys, CsOfArg(U, x.nsarg))
       [] a = "CMClone"         -> HasMat(U, x.m) /\ NsArgOk(U, x.nsarg)
@@ -505,6 +514,7 @@ Apply(U, a, x) ==
       [] a = "CMGetIndex"      -> OpCMGetIndex(U, x.m, x.i)
       [] a = "CMMigrate"       -> OpCMMigrate(U, x.m, x.n, x.unify)
       [] a = "CMReconstruct"   -> OpCMReconstruct(U, x.m, x.unify)
+      [] a = "CMClearReconstruct" -> OpCMClearReconstruct(U, x.m, x.unify)
       [] a = "CMUpdate"        -> OpCMUpdate(U, x.m)
       [] a = "CMFromDict"      -> OpCMFromDict(U, x.keys, x.nsarg)
       [] a = "CMClone"         -> OpCMClone(U, x.m, x.nsarg)
@@ -578,6 +588,7 @@ Moves(P, a, x, Q) ==
       [] a = "TreeMigrateMemo" -> MvMemo(P, Q, x.n, P.memos[x.k], <<x.t>>, <<x.t>>)
       [] a = "CMMigrate"       -> MvRows(P, Q, x.n, IF x.unify THEN "bylabel" ELSE "byidentity", P.mats[x.m].rows, RowsOf(Q, x.m))
       [] a = "CMReconstruct"   -> MvRows(P, Q, P.mats[x.m].ns, IF x.unify THEN "bylabel" ELSE "byidentity", P.mats[x.m].rows, RowsOf(Q, x.m))
+      [] a = "CMClearReconstruct" -> MvRows(P, Q, P.mats[x.m].ns, IF x.unify THEN "bylabel" ELSE "byidentity", P.mats[x.m].rows, RowsOf(Q, x.m))
       [] a = "CMUpdate"        -> MvRows(P, Q, P.mats[x.m].ns, "same", P.mats[x.m].rows, RowsOf(Q, x.m))
       [] a = "CMClone"         -> MvRows(P, Q, NsArg(P, x.nsarg, P.mats[x.m].ns),
                                          IF NsArg(P, x.nsarg, P.mats[x.m].ns) = P.mats[x.m].ns THEN "same" ELSE "bylabel",
@@ -610,7 +621,8 @@ JointDup(P, Q, ms) ==
               /\ ~(t1 \in NsMem(P, ms[i].Y) /\ t2 \in NsMem(P, ms[i].Y))
 \* for the composite clear+reconstruct the namespace the references are carried into is the CLEARED one: what was a
 \* member before clear() is not an "existing member" that label unification would have to reuse
-LFPre(P, a, x) == IF a = "TLClearReconstruct" /\ HasList(P, x.l) THEN ClearNs(P, P.lists[x.l].ns) ELSE P
+LFPre(P, a, x) == IF a = "TLClearReconstruct" /\ HasList(P, x.l) THEN ClearNs(P, P.lists[x.l].ns)
+                  ELSE IF a = "CMClearReconstruct" /\ HasMat(P, x.m) THEN ClearNs(P, P.mats[x.m].ns) ELSE P
 LFAll(P0, a, x, raised, Q) ==
     IF raised # "" THEN {}
     ELSE LET P == LFPre(P0, a, x)
